@@ -238,6 +238,7 @@ def pipeline_leg(a, seed, res, replay_project=None):
                                "implementation's warnings on all %d projects" % len(projects)}, no_input=True)
 
     kinds, nmeth, nwarn, coinc, warned_projects, maxfan, multi = {}, 0, 0, 0, 0, 0, 0
+    nhidden, hidden_warned, deep_ctl = 0, 0, 0
     other = sum(1 for r in results if "failed" not in r["ob"] and r["ob"]["other_diags"] and r["ob"]["warned"])
     for pr, r in zip(projects, results):
         kinds[pr["kind"]] = kinds.get(pr["kind"], 0) + 1
@@ -251,11 +252,19 @@ def pipeline_leg(a, seed, res, replay_project=None):
         multi += 1 if len(set(m["prefix"] for m in ob["methods"])) > 1 else 0
         for k in set(ob["warned"]):
             maxfan = max(maxfan, ob["warned"].count(k))
+            hidden_warned += 1 if ob["methods"][k]["hidden"] else 0
+        nhidden += sum(1 for m in ob["methods"] if m["hidden"])
+        for c in pr["controllers"]:
+            d = len([x for x in c["prefix"].split("/") if x])
+            ones = sum(1 for m in c["methods"] if len([x for x in m["route"].split("/") if x]) == 1)
+            deep_ctl += 1 if d >= 3 and ones >= 2 else 0
     return {
         "projects": len(projects), "project_kinds": kinds, "methods": nmeth, "route_conflict_warnings": nwarn,
         "projects_with_warnings": warned_projects, "projects_with_different_controller_prefixes": multi,
         "route_value_positions_shared_by_methods_of_different_files": coinc,
         "max_warnings_on_one_method": maxfan,
+        "hidden_methods": nhidden, "hidden_methods_warned": hidden_warned,
+        "controllers_mounted_3_or_more_segments_deep_with_2_or_more_one_segment_methods": deep_ctl,
         "projects_with_conflict_warnings_and_other_diagnostics": other,
         "warnings_agree_with_model": sum(1 for r in results if r["agrees_warn"]),
         "sample": [{"project": projects[i], "observed": PL.describe(projects[i], results[i])} for i in range(min(1, len(projects)))],
@@ -359,7 +368,9 @@ def main():
                 "route overlapping 9-40 same-verb routes, usually discovered after them), each also under "
                 "random permutations; non-trivial = the implementation reports at least one conflict; "
                 "distinct = distinct (path, verb) lists.  Pipeline leg: rendered projects (controllers written "
-                "from one skeleton one per file, same-file controls, files / packages, stars) through "
+                "from one skeleton one per file, same-file controls, files / packages, stars, controllers mounted 2-7 "
+                "segments deep with several one-segment methods and an overlapping route under a shorter mount "
+                "point, @Hidden methods on one or both ends of an overlap) through "
                 "pipeline.Validate(), warned methods vs model and vs the mounted-route oracle",
         "samples": [{"input": strip(cases[i]), "implementation": impl[i]} for i in range(ncorpus, min(len(cases), ncorpus + 3))],
         "traces_validated_against_impl": len(cases) - len(disagree),
